@@ -99,7 +99,12 @@ def build(setting, flag, env, cfg, where, variant=0, explicit_default=None):
             e['maxdepth'] = DEPTH[venv]
         if cfg == 'set':
             entries['MaxDepth'] = DEPTH['cfg']
-        path = ['csv', 'database-resolved']
+        # the depth limit in force is the same for every command that resolves the book: rotate through them
+        RES = [(['csv', 'database-resolved'], (), {}), (['reg'], (), {}), (['bal'], (), {}), (['bal'], (), {'singleElement': 'calories'}), (['report', 'totals'], (), {}),
+               (['report', 'element-total'], ('calories',), {}), (['report', 'unresolved'], (), {}), (['summary'], ('2021/01/24',), {}), (['bal'], (), {'collapse': True}),
+               (['reg'], (), {'singleElement': 'calories'})]
+        build.rot = getattr(build, 'rot', 0) + 1
+        path, args, sflags = RES[build.rot % len(RES)]
         expect = ('status', 'ok') if variant == 0 else ('class', 'depth')
     if cfg == 'unset':
         # the file exists but says nothing about this setting
@@ -115,7 +120,7 @@ def build(setting, flag, env, cfg, where, variant=0, explicit_default=None):
     files.setdefault(b'food.yaml', b'')
     gg = {'noColor': True}
     gg.update(g)
-    c = AppCase(path, args, g=gg, env=e, cfg=cfgd, files=files, disk=True,
+    c = AppCase(path, args, g=gg, s=(sflags if setting == 'maxdepth' else {}), env=e, cfg=cfgd, files=files, disk=True,
                 meta={'kind': 'load:' + setting + (' (explicit %s = default value)' % explicit_default if explicit_default else ''), 'setting': setting, 'flag': flag, 'env': env,
                       'cfg': cfg, 'where': where, 'winner': w, 'expect': expect, 'variant': str(variant) + (explicit_default or '')})
     return c
